@@ -93,6 +93,9 @@ func (r *Rig) AddNode(name string, chain []refmodel.Hdr, seed bool) (*Node, erro
 }
 
 // Refuse makes dials to the node's fake IP fail (connection refused) or succeed again.
+// DialCount is the number of dial attempts the service has made so far (refused ones included).
+func (r *Rig) DialCount() int { r.mu.Lock(); defer r.mu.Unlock(); return r.Dials }
+
 func (r *Rig) Refuse(n *Node, refuse bool) { r.mu.Lock(); r.refuse[n.IP] = refuse; r.mu.Unlock() }
 
 // Install points the process-global configuration at the rig: DNS seed, lookup, dial,
